@@ -112,12 +112,18 @@ def premise_reassembler(ctx, prog, rule):
     r16_4_invariant(ctx, p2, rule=rule)
 
 
+def premise_iterator(ctx, prog, rule):
+    from .iter_rules import r3_5_iterator
+    r3_5_iterator(ctx, prog, rule=rule)
+
+
 # machine-checked premises of reviewed budget entries: `requires` text in anchors/panic_budget.json -> checker
 PREMISES = {
     "is_removable_character accepts only code points < 0x80": premise_removable_ascii,
     "range test in ErrorCode::new and ErrorCode::decode": premise_error_code,
     "C01 R1.2": premise_distinct_codes,
     "reassembler invariant (C16 R16.4)": premise_reassembler,
+    "attribute iterator invariant (C03 R3.5)": premise_iterator,
 }
 
 
